@@ -370,6 +370,25 @@ func enumGraphs(tier string, esmOnly bool) []*ggraph {
 			}
 		}
 	}
+	// a module whose evaluation throws and that is reached twice, the second time through import(): the failure must be
+	// remembered (ESM) exactly as natively. Diamond a->b, a->c, b-dyn->c with every kind of a->c edge and every
+	// assignment of module kinds (also in the quick tier, which skips most three-edge throwing variants above).
+	if !esmOnly {
+		for km := 0; km < 8; km++ {
+			mods := make([]gmod, 3)
+			for i := range mods {
+				mods[i] = gmod{id: ids[i], esm: km&(1<<uint(i)) == 0, style: "exports"}
+			}
+			for _, k01 := range []string{"default", "require"} {
+				for _, k02 := range allKinds {
+					g := &ggraph{mods: append([]gmod{}, mods...), edges: []gedge{{0, 1, k01}, {0, 2, k02}, {1, 2, "dyn"}}, throwIn: 2}
+					if g.valid() {
+						out = append(out, g)
+					}
+				}
+			}
+		}
+	}
 	sort.SliceStable(out, func(i, j int) bool { return len(out[i].edges) < len(out[j].edges) })
 	return out
 }
